@@ -1,12 +1,12 @@
 package km
 
 import (
-	"strings"
 	_ "embed"
 	"encoding/json"
 	"go/token"
 	"go/types"
 	"sort"
+	"strings"
 
 	"golang.org/x/tools/go/ssa"
 )
